@@ -537,6 +537,10 @@ class Evaluator:
                 self.call_function(FuncV(init, None, obj, init.cls), args, kwargs, node)
             elif any(c.is_dataclass for c in ci.mro()):
                 self.dataclass_init(ci, obj, args, kwargs, node)
+            elif ci.is_namedtuple:
+                # typing.NamedTuple: fields in annotation order; the instance is also a tuple of its field values
+                self.dataclass_init(ci, obj, args, kwargs, node)
+                obj.nt_fields = [n for n, _v, ann in ci.assigns if ann is not None]
             elif args or kwargs:
                 self.conformance(ci.qualname, node, "constructor takes no arguments")
         finally:
@@ -1134,6 +1138,8 @@ class Evaluator:
         return mk_app("elem", [Sym(key_of(seq)), j])
 
     def concrete_items(self, it):
+        if isinstance(it, Obj) and getattr(it, "nt_fields", None) is not None:
+            return [it.attrs[f] for f in it.nt_fields]
         if isinstance(it, ClassV) and it.ci.is_enum:
             return list(self.enum_members(it.ci))
         if isinstance(it, Tup) and not any(isinstance(i, Star) for i in it.items):
@@ -1205,6 +1211,9 @@ class Evaluator:
             raise AnalysisError("unsupported assignment target %s" % type(t).__name__)
 
     def unpack(self, v, n, node):
+        if isinstance(v, Obj) and getattr(v, "nt_fields", None) is not None:
+            v = Tup([v.attrs[f] if isinstance(v.attrs[f], V) else Sym(key_of(v.attrs[f])) for f in v.nt_fields]) \
+                if all(isinstance(v.attrs[f], V) for f in v.nt_fields) else Lst([v.attrs[f] for f in v.nt_fields])
         if isinstance(v, Tup) and not any(isinstance(i, Star) for i in v.items):
             if len(v.items) != n:
                 raise RaiseSignal(App("ValueError", (Const("unpack"),)), node)
